@@ -31,7 +31,10 @@ REQUIRED_COUNTERS = ['chk:isolation', 'chk:error-row', 'chk:no-escape', 'chk:bea
 TIMEOUT_S = {'quick': 2400, 'thorough': 14000}
 
 FAULTS = ['missing-file', 'few-events', 'fraction-neg', 'fraction-big', 'bad-units', 'calib-failed', 'calib-nomef',
-          'calib-nochannel', 'other-instrument', 'other-amp', 'other-voltage']
+          'calib-nochannel', 'other-instrument', 'other-amp', 'other-voltage',
+          # the same mismatches seen from the sample's side: the row shares the *healthy* rows' beads (Bgood) but its own
+          # file / instrument differs, so any per-beads memo of a passed check would wrongly let it through
+          'sample-other-instrument', 'sample-other-amp', 'sample-other-voltage']
 
 
 def build_world(F, rng, base):
@@ -69,6 +72,8 @@ def build_world(F, rng, base):
         excelgen.sample_file(rng, i0, os.path.join(base, fn), n=int(rng.integers(450, 700)), floatdata=False)
         files.append(fn)
     excelgen.sample_file(rng, i0, os.path.join(base, 's_few.fcs'), n=380)
+    excelgen.sample_file(rng, i0, os.path.join(base, 's_volt.fcs'), n=460, voltage=[str(777 + j) for j in range(D)])
+    excelgen.sample_file(rng, i0, os.path.join(base, 's_amp.fcs'), n=460, amp_log=False)
     healthy = [dict(fp=files[0], u1='MEF', u2='a.u.', gf=0.5, beads='Bgood'),
                dict(fp=files[1], u1='RFI', u2='MEF', gf=0.85, beads='Bgood'),
                dict(fp=files[2], u1='MEF', u2=None, gf=0.3, beads='Bpartial'),
@@ -90,6 +95,14 @@ def apply_fault(h, kind):
         r['gf'] = 1.5
     elif kind == 'bad-units':
         r['u2'] = 'furlongs'
+    elif kind.startswith('sample-other-'):
+        r['u1'] = 'MEF'
+        r['u2'] = None
+        r['beads'] = 'Bgood'
+        if kind == 'sample-other-instrument':
+            r['iid'] = 'I1'
+        else:
+            r['fp'] = {'sample-other-amp': 's_amp.fcs', 'sample-other-voltage': 's_volt.fcs'}[kind]
     else:
         r['u1'] = 'MEF'
         r['beads'] = {'calib-failed': 'Bfail', 'calib-nomef': 'Bnomef', 'other-instrument': 'Bother', 'other-amp': 'Bamp',
@@ -100,7 +113,7 @@ def apply_fault(h, kind):
 
 
 def table(rows):
-    return pd.DataFrame([{'ID': 'R%d' % i, 'Instrument ID': 'I0', 'Beads ID': r['beads'], 'File Path': r['fp'],
+    return pd.DataFrame([{'ID': 'R%d' % i, 'Instrument ID': r.get('iid', 'I0'), 'Beads ID': r['beads'], 'File Path': r['fp'],
                           'FL1-H Units': r['u1'], 'FL2-H Units': r['u2'], 'Gate Fraction': r['gf']}
                          for i, r in enumerate(rows)],
                         columns=['ID', 'Instrument ID', 'Beads ID', 'File Path', 'FL1-H Units', 'FL2-H Units', 'Gate Fraction']).set_index('ID')
